@@ -15,6 +15,21 @@ CHECKS = {
          "Generated programs inside the order-insensitive fragment are executed in both modes on the same trees and globals; strict Ok must imply lazy Ok with an isomorphic graph, a strict failure with an order-independent cause must imply a lazy failure, and neither may panic. Exploration is the right level: the two interpreters duplicate their logic, and a differential over generated programs reaches the unsampled interactions; it cannot prove equivalence.",
          "Trusted: the generator's enforcement of the fragment (harness/src/gen.rs), graph isomorphism check (budgeted; exhausted budget counts as inconclusive), tree-sitter, proptest.",
          "DESIGN.md §5 C02"),
+ "C03": ("exploration",
+         "independent recomputation with tree-sitter (own Query/QueryCursor per stanza pattern) vs the public match visitors and probe-file execution in both modes",
+         "Multi-stanza probe files over a pool of query shapes, with capture names shared across stanzas under different quantifiers and positions, are run on generated trees (incl. ERROR trees); File::try_visit_matches(lazy=false|true), Stanza::try_visit_matches and the executed probe graph in each mode must show exactly one block run per match that tree-sitter reports for the stanza's own pattern, with node / null / list capture values. Exploration is the right level: the index and quantifier tables only matter for multi-stanza files, which generation supplies in bulk.",
+         "Trusted: tree-sitter's matching of the pattern as written (if appending a root capture changes the matches the case is inconclusive). Known finding D7 (root with >=3 captures, quantified root) is pinned and excluded from generation.",
+         "DESIGN.md §5 C03"),
+ "C04": ("exploration",
+         "reference-model property testing with exact node identity: scenario generator for scoped variables (definers on several ancestor kinds, readers through many query paths, list elements, stored links) in both modes",
+         "Scoped-variable scenarios and scoped-heavy generated programs are executed (strict, and lazy inside the order-insensitive fragment) on trees with deep nesting, same-range parent/child chains and many nodes of one kind, and compared with the reference interpreter keyed by pre-order node identity: same Ok/Err, same attribute values copied out of the variables, nearest-ancestor inheritance only for declared names, duplicate definitions rejected.",
+         "Trusted: the reference interpreter and the tree index (one TreeCursor walk). 32-bit id collisions of tree-sitter nodes are out of reach (DESIGN §10).",
+         "DESIGN.md §5 C04"),
+ "C09": ("exploration",
+         "model-based testing over histories: pre-populated graph + 1-3 execute_into calls, map/set graph model advanced by the reference interpreter, isomorphism with existing nodes fixed",
+         "Histories on one graph (API pre-population with attributed edges, then up to three execute_into calls in either mode with collision-heavy generated programs and existing nodes handed back as globals) are compared after every call with a map/set model: existing nodes, edges and attribute values intact, new nodes numbered after them, one edge per pair, ascending edge iteration, conflicts fail. Exploration over histories is the right level for a stateful accumulation contract.",
+         "Trusted: the reference interpreter, graph isomorphism with a pinned prefix. One tree per history; state after a failed call only checked structurally.",
+         "DESIGN.md §5 C09"),
  "C10": ("exploration",
          "reference-model property testing of scan: generated arm lists x subjects, spec-style matching oracle, both interpreters",
          "Generated arm lists (regex language with classes, alternation, optional groups, anchors, multi-byte literals, occasional assertions) and subjects are run through a program whose arm blocks record arm number and every $k in a chain of nodes; strict and lazy results are compared with the reference interpreter's spec-style scan; nullable regexes must be rejected at load; a poll-bound breach is reported as non-termination. Exploration is the right level: the matching order is defined for all strings and arm lists.",
